@@ -58,3 +58,35 @@ Theorem C04_errors_no_effect_along_histories :
 Proof. exact history_errors_no_effect. Qed.
 Print Assumptions C04_errors_no_effect_along_histories.
 
+
+(* ---- K-composite characterised: the state after a failed composite is exactly the one s_import / the statement below describe (an empty new collection at most), and it still refines a well-formed database ---- *)
+From Clover Require Import QueryProofs CompositeSpec CompositeProofs.
+Theorem C04_failed_import_leaves_exactly_this : forall db h c file,
+  wf_db db -> R db (durable h) -> closed h = false -> op_dom_all db (OImport c file) ->
+  let '(r, db') := s_import c file db in
+  fst (step h (OImport c file)) = T_unit r /\ wf_db db' /\ R db' (durable (snd (step h (OImport c file)))).
+Proof. exact import_refines. Qed.
+Print Assumptions C04_failed_import_leaves_exactly_this.
+
+Theorem C04_failed_create_by_query_leaves_exactly_this : forall db h c q,
+  wf_db db -> R db (durable h) -> closed h = false -> op_dom_all db (OCreateByQuery c q) ->
+  exists db', wf_db db' /\ R db' (durable (snd (step h (OCreateByQuery c q)))) /\
+    match assoc c db with
+    | Some _ => fst (step h (OCreateByQuery c q)) = T_err ECollExist /\ db' = db
+    | None =>
+        (forall c', c' <> c -> assoc c' db' = assoc c' db) /\
+        match normalize_query (mk_query q) with
+        | None => fst (step h (OCreateByQuery c q)) = T_err EOther /\ assoc c db' = Some (mkSC [] [])
+        | Some nq =>
+            match assoc (nq_coll nq) db with
+            | None => (* the source does not exist (it may be c itself, just created and empty) *)
+                assoc c db' = Some (mkSC [] [])
+            | Some sc =>
+                fst (step h (OCreateByQuery c q)) = T_ok (TL []) /\
+                exists res sc', find_ok' (map snd (sc_docs sc)) nq res /\ assoc c db' = Some sc' /\
+                                sc_idx sc' = [] /\ Permutation (map snd (sc_docs sc')) res
+            end
+        end
+    end.
+Proof. exact create_by_query_refines. Qed.
+Print Assumptions C04_failed_create_by_query_leaves_exactly_this.
